@@ -1,8 +1,8 @@
 package store
 
 import (
-	"database/sql"
 	"context"
+	"database/sql"
 	"fmt"
 	"math/rand"
 
@@ -58,8 +58,10 @@ func (k *gerKind) close() {
 	}
 }
 
-func (k *gerKind) gerHash(x int) common.Hash { return names.Keccak([]byte(fmt.Sprintf("ger-%d-%d", k.seed, x))) }
-func gerIndex(x int) uint32                  { return uint32(10*x + 3) }
+func (k *gerKind) gerHash(x int) common.Hash {
+	return names.Keccak([]byte(fmt.Sprintf("ger-%d-%d", k.seed, x)))
+}
+func gerIndex(x int) uint32 { return uint32(10*x + 3) }
 
 func (k *gerKind) build(num uint64, evs []Ev) aggsync.Block {
 	blk := aggsync.Block{Num: num, Hash: blockHash(num, k.seed)}
@@ -186,9 +188,9 @@ func (k *gerKind) snapshot() tr.M {
 
 var gerDeny = map[string]bool{"Start": true}
 
-func (k *gerKind) kindSeed() int64     { return k.seed }
-func (k *gerKind) setSeed(s int64)     { k.seed = s }
-func (k *gerKind) workDir() string     { return k.dir }
+func (k *gerKind) kindSeed() int64 { return k.seed }
+func (k *gerKind) setSeed(s int64) { k.seed = s }
+func (k *gerKind) workDir() string { return k.dir }
 
 // prepare records what process would have recorded about the block, without processing it (the block is processed by a child process).
 func (k *gerKind) prepare(op Op) {}
